@@ -6,3 +6,4 @@ import Sml.Props.C17
 #print axioms Sml.C17.reset_count
 #print axioms Sml.C17.reset_after_frame
 #print axioms Sml.C17.frame_tile
+#print axioms Sml.C17.io_error_count
